@@ -389,6 +389,26 @@ let run_case cid t h v ops =
         end
       | _ -> failwith ("op " ^ op)) ops
 
+(* definitions before instantiation (Model/Generic.v): type expressions over the parameters *)
+let rec nat_of_int i = if i <= 0 then O else S (nat_of_int (i - 1))
+let rec texp_of (s : Sexp.t) : texp =
+  match s with
+  | L [A "p"; A i] -> EParam (nat_of_int (int_of_string i))
+  | L [A "c"; t] -> EClosed (ty_of t)
+  | L [A "ph"; e] -> EPhantom (texp_of e)
+  | L [A "vec"; e] -> EVec (texp_of e)
+  | L [A "bslice"; e] -> EBoxSlice (texp_of e)
+  | L [A "arr"; A n; e] -> EArr (n_of_hex n, texp_of e)
+  | L [A "opt"; e] -> EOpt (texp_of e)
+  | _ -> failwith "texp"
+let gfields_of l = List.map (function L [A "f"; A nm; e] -> (name_of_hex nm, texp_of e) | _ -> failwith "gfield") l
+let gdef_of = function
+  | L [A "gdef"; i; A n; A st; L fs; L vs] ->
+    { g_info = info_of i; g_n = nat_of_int (int_of_string n); g_struct = bool_of st; g_fields = gfields_of fs;
+      g_variants = List.map (function L (A "v" :: A nm :: A named :: fs) -> ((name_of_hex nm, bool_of named), gfields_of fs)
+                                    | _ -> failwith "gvariant") vs }
+  | _ -> failwith "gdef"
+
 let run ic =
   List.iter (fun line ->
       if line <> "" then
@@ -402,6 +422,16 @@ let run ic =
                  | DAccept -> "DAccept" | DPanicNotReprC -> "DPanicNotReprC" | DPanicBoth -> "DPanicBoth" | DBoundError -> "DBoundError") in
              Printf.printf "%s derive %s\n" pid o
            | _ -> failwith "D line")
+        | "G" :: gid :: tid :: rest ->
+          (* G <gid> <tid of the instance, or - > <gdef> <argument type> ...: the grammar boundary, the
+             instantiation and the parameter-level eps-copy arguments of Model/Generic.v *)
+          (match Sexp.parse ("(" ^ String.concat " " rest ^ ")") with
+           | L (g :: args) ->
+             let d = gdef_of g and args = List.map ty_of args in
+             let inst = if tid = "-" then "-" else if inst_def d args = Hashtbl.find types tid then "same" else "DIFFERS" in
+             Printf.printf "%s gen wf=%s inst=%s dargs=%s\n" gid (if wf_gdef d then "1" else "0") inst
+               (String.concat ";" (List.map show_dty (deser_args d args)))
+           | _ -> failwith "G line")
         | "C" :: cid :: tid :: th :: ah :: nm :: rest ->
           let rest = String.concat " " rest in
           (* the value is the first S-expression, the ops follow *)
